@@ -484,8 +484,8 @@ def _bytes_build_ok(pre, post):
     v = pre['obj'].t
     L = _param_int(pre, 'length')
     i = t.var('i!', t.INT)
-    written = forall_range(i, t.ZERO, L, t.eq(t.select(o2.buf, t.add(o.pos, i)), t.select(t.app('barr', t.ARR, v), t.add(t.app('boff', t.INT, v), i))),
-                           [[t.select(o2.buf, t.add(o.pos, i))]])
+    written = forall_range(i, o.pos, t.add(o.pos, L), t.eq(t.select(o2.buf, i), t.select(t.app('barr', t.ARR, v), t.add(t.app('boff', t.INT, v), t.sub(i, o.pos)))),
+                           [[t.select(o2.buf, i)]])
     return [('advances-by-length', t.eq(o2.pos, t.add(o.pos, L))), ('writes-the-bytes', written),
             ('returns-the-bytes', t.app('pyeq', t.BOOL, post.eng.to_dyn(post.result, post.st), v))]
 
@@ -509,8 +509,8 @@ def _gb_build_ok(pre, post):
     v = pre['obj'].t
     L = t.app('blen', t.INT, v)
     i = t.var('i!', t.INT)
-    written = forall_range(i, t.ZERO, L, t.eq(t.select(o2.buf, t.add(o.pos, i)), t.select(t.app('barr', t.ARR, v), t.add(t.app('boff', t.INT, v), i))),
-                           [[t.select(o2.buf, t.add(o.pos, i))]])
+    written = forall_range(i, o.pos, t.add(o.pos, L), t.eq(t.select(o2.buf, i), t.select(t.app('barr', t.ARR, v), t.add(t.app('boff', t.INT, v), t.sub(i, o.pos)))),
+                           [[t.select(o2.buf, i)]])
     return [('advances-by-len', t.eq(o2.pos, t.add(o.pos, L))), ('writes-the-bytes', written),
             ('returns-the-bytes', t.app('pyeq', t.BOOL, post.eng.to_dyn(post.result, post.st), v))]
 
